@@ -446,12 +446,30 @@ class Gen:
                 return Node('%s[keep %s]' % (v, n), '(keep %s (%s))' % (sx, name_sx(n)), node.ids, [m for m in ms if m[0] == n], node.ops + ('keep',))
             return Node('%s[drop %s]' % (v, n), '(drop %s (%s))' % (sx, name_sx(n)), node.ids, [m for m in ms if m[0] != n], node.ops + ('drop',))
         if k == 'rename':
-            old = r.choice(comps)[0]
-            new = old + 'x'
-            if new in [c[0] for c in comps]:
+            names = [c[0] for c in comps]
+            mode = r.random()
+            pairs = []
+            if mode < 0.25 and len(ms) >= 2:
+                # swap or rotation of measure names inside ONE rename clause (simultaneous renaming)
+                cyc = [m[0] for m in ms][:r.choice([2, 3])]
+                pairs = [(cyc[i], cyc[(i + 1) % len(cyc)]) for i in range(len(cyc))]
+            elif mode < 0.45 and len(ms) >= 2:
+                # shift: Me_a -> Me_b, Me_b -> fresh (in either textual order)
+                a, b = ms[0][0], ms[1][0]
+                pairs = [(a, b), (b, b + 'y')]
+                if r.random() < 0.5:
+                    pairs.reverse()
+            else:
+                for old_ in r.sample(names, r.choice([1, 1, 2]) if len(names) > 1 else 1):
+                    pairs.append((old_, old_ + 'x'))
+            mp = dict(pairs)
+            final = [mp.get(n, n) for n in names]
+            if len(set(final)) != len(final):
                 return None
-            ren = lambda l: [((new if n == old else n), t) for n, t in l]  # noqa: E731
-            return Node('%s[rename %s to %s]' % (v, old, new), '(rename %s ((%s %s)))' % (sx, name_sx(old), name_sx(new)), ren(node.ids), ren(ms), node.ops + ('rename',))
+            ren = lambda l: [(mp.get(n, n), t) for n, t in l]  # noqa: E731
+            return Node('%s[rename %s]' % (v, ', '.join('%s to %s' % p_ for p_ in pairs)),
+                        '(rename %s (%s))' % (sx, ' '.join('(%s %s)' % (name_sx(a_), name_sx(b_)) for a_, b_ in pairs)),
+                        ren(node.ids), ren(ms), node.ops + ('rename',))
         if k == 'sub':
             i, t = r.choice(node.ids)
             val = r.choice(ID_INT) if t == 'Integer' else r.choice(ID_STR)
